@@ -139,11 +139,17 @@ impl Frame {
             buf
         };
 
-        // Read the payload
-        let mut payload: Vec<u8> = vec![0; length as usize];
+        // Read the payload, allocating only as the bytes actually arrive rather than trusting the claimed length
+        let mut payload: Vec<u8> = Vec::new();
         stream
-            .read_exact(&mut payload)
+            .by_ref()
+            .take(length)
+            .read_to_end(&mut payload)
             .map_err(|_| WebsocketError::ReadError)?;
+
+        if payload.len() as u64 != length {
+            return Err(WebsocketError::ReadError);
+        }
 
         // Unmask the payload
         payload
